@@ -253,6 +253,14 @@ func c06Direct(c *Ctx, syms []c06Sym, parsed []*rules.NetworkRule, ms []int) (ev
 					What:   fmt.Sprintf("NewMatchingResult(rules=%v, sourceRules=%v).GetBasicResult() = %s (%s%s), documented precedence gives %s", netTexts(rl), netTexts(sl), renderNetText(b), c06ClassNames[got], c06Special(b), c06ClassNames[wantWeb]),
 					Replay: map[string]any{"rules": netTexts(rl), "source_rules": netTexts(sl)}})
 			}
+			// the accessors only read the result: the verdict is the same after every one of them
+			_ = m.GetCosmeticOption()
+			if b2 := m.GetBasicResult(); b2 != b && !reported {
+				reported = true
+				c.Run.Violate(ev.Violation{Pred: "web-verdict-equals-reference", Sig: map[string]any{"rules": texts(), "route": "GetBasicResult after GetCosmeticOption"},
+					What:   fmt.Sprintf("NewMatchingResult(rules=%v, sourceRules=%v): GetBasicResult() = %s, after GetCosmeticOption() on the same result %s", netTexts(rl), netTexts(sl), renderNetText(b), renderNetText(b2)),
+					Replay: map[string]any{"rules": netTexts(rl), "source_rules": netTexts(sl)}})
+			}
 			return true
 		})
 		return true
